@@ -22,19 +22,6 @@ pub enum How {
     /// dropped while the thread unwinds from a panic (caught inside the operation)
     PanicDrop,
 }
-struct InjectedPanic;
-/// Drop `x` during the unwinding of a panic raised right here.
-fn drop_while_unwinding<T>(x: T) {
-    let r = std::panic::catch_unwind(std::panic::AssertUnwindSafe(move || {
-        let _x = x;
-        std::panic::resume_unwind(Box::new(InjectedPanic));
-    }));
-    match r {
-        Err(e) if e.is::<InjectedPanic>() => {}
-        Err(e) => std::panic::resume_unwind(e),
-        Ok(()) => unreachable!(),
-    }
-}
 #[derive(Serialize, Deserialize, Clone, Debug, PartialEq)]
 pub enum TOp {
     /// start timer `id` on the shared histogram (local = false) or on this thread's local one
